@@ -133,6 +133,8 @@ class G:
                         (2, self.c_verbatim), (2, self.c_skip), (3, self.c_newcommand), (2, self.c_theorem),
                         (2, self.c_env_known), (1, self.c_selectlanguage), (1, self.c_otherlanguage),
                         (1, self.c_proof), (1, self.c_caption_fig), (1, self.c_usepackage)]
+        if self.p('inspect', False):
+            choices += [(6, self.c_inspect)]
         only = self.p('only', None)
         if only is not None:
             choices = [(w, f) for (w, f) in choices if f.__name__ in only]
@@ -378,6 +380,17 @@ class G:
         return {'t': 'gls', 'name': rng.choice(['\\gls', '\\Gls', '\\GLS', '\\glspl', '\\glsdesc', '\\Glsdesc', '\\glstext']),
                 'label': rng.choice(self.gls)}
 
+    def c_inspect(self):
+        """a macro whose handler expands an argument only to look at its text, and then drops it"""
+        rng = self.rng
+        pre = rng.choice(['\\phantom', '\\hphantom', '\\hspace', '\\hspace*',
+                          '\\newtheorem{th' + ''.join(rng.choice(LET) for _ in range(3)) + '}'])
+        items = []
+        for _ in range(rng.randint(1, 3)):
+            items.append(rng.choice([self.c_unknown, self.c_unknown, self.word, self.c_usermacro])())
+            items.append({'t': 'ws', 's': ' '})
+        return {'t': 'inspect', 'pre': pre, 'body': {'t': 'seq', 'items': items[:-1]}}
+
     def c_usepackage(self):
         return {'t': 'usepackage', 'pkg': self.rng.choice(['babel', 'amsmath', 'xcolor', 'graphicx', 'hyperref', 'biblatex',
                                                             'amsthm', 'xspace', 'glossaries', 'unknownpkg']),
@@ -604,6 +617,10 @@ def r_glsdef(n, r):
     r.emit(n['endp'] + ('}}' if n['kind'] == 'entry' else '}'))
 def r_gls(n, r):
     r.emit(n['name'] + '{' + n['label'] + '}')
+def r_inspect(n, r):
+    r.emit(n['pre'] + '{')
+    with_role(r, 'hidden', lambda: render(n['body'], r))
+    r.emit('}')
 def r_usepackage(n, r):
     r.emit('\\usepackage' + ('[' + n['opt'] + ']' if n['opt'] else '') + '{' + n['pkg'] + '}')
 
@@ -615,7 +632,7 @@ RENDER = {
     'itemize': r_itemize, 'display': r_display, 'env': r_env, 'verbatim': r_verbatim, 'skip': r_skip,
     'param': r_param, 'newcommand': r_newcommand, 'call': r_call, 'theorem': r_theorem, 'proof': r_proof,
     'selectlanguage': r_selectlanguage, 'otherlanguage': r_otherlanguage, 'figure': r_figure,
-    'usepackage': r_usepackage, 'rawword': r_rawword, 'glsdef': r_glsdef, 'gls': r_gls,
+    'usepackage': r_usepackage, 'inspect': r_inspect, 'rawword': r_rawword, 'glsdef': r_glsdef, 'gls': r_gls,
 }
 
 def edge_docs(rng, k=1):
